@@ -367,7 +367,9 @@ func C09(seed uint64, run int) *spec.Spec {
 		s.Tasks = append(s.Tasks, task)
 	}
 	// shared objects
-	if nTasks > 1 && r.Chance(0.55) {
+	// objects that are kept and read again later: shared between tasks, or (single-task histories) re-read after
+	// other calls were made, which is what shows aliasing between an earlier object and later work
+	if r.Chance(0.55) {
 		nPub := r.Range(1, 3)
 		for p := 0; p < nPub; p++ {
 			var ctor ops.Op
@@ -430,7 +432,7 @@ func C09(seed uint64, run int) *spec.Spec {
 			ops_ := s.Tasks[pt].Ops
 			s.Tasks[pt].Ops = append(ops_[:pos:pos], append([]spec.Step{st}, ops_[pos:]...)...)
 			for t := 0; t < nTasks; t++ {
-				if t == pt && r.Chance(0.5) {
+				if t == pt && nTasks > 1 && r.Chance(0.5) {
 					continue
 				}
 				k := r.Range(1, 3)
